@@ -177,6 +177,7 @@ class Ctx:
         self.prefix = prefix or []
         self.pos = 0
         self.decisions = []
+        self.feas_cache = {}
         self.work = work if work is not None else []
         self.fresh_n = 0
         self.writes = {}      # (id, field) -> True, pre-existing objects only
@@ -263,20 +264,29 @@ class Ctx:
         self.pc.append(t)
 
     def branch(self, cond):
-        """cond: z3 Bool term; returns the python bool chosen for this path"""
+        """cond: z3 Bool term; returns the python bool chosen for this path.
+        A condition that the path condition already decides (the other side is unsat) is not added to it again;
+        decisions are recorded as (value, implied) so that a re-executed prefix makes the same choices without asking."""
         cond = smt.simp(cond)
         if smt.is_true(cond):
             return True
         if smt.is_false(cond):
             return False
         if self.pos < len(self.prefix):
-            d = self.prefix[self.pos]
+            d, implied = self.prefix[self.pos]
         else:
-            ft = smt.feasible(self.pc + self.axioms + [cond])
-            ff = smt.feasible(self.pc + self.axioms + [z3.Not(cond)])
+            key = (len(self.pc), len(self.axioms), cond.get_id())
+            hit = self.feas_cache.get(key)
+            if hit is None:
+                base = self.pc + self.axioms
+                ft = smt.feasible(base + [cond])
+                ff = smt.feasible(base + [z3.Not(cond)])
+                hit = self.feas_cache[key] = (ft, ff, cond)   # the term is kept alive: ids of dead terms are reused
+            ft, ff = hit[0], hit[1]
+            implied = not (ft and ff)
             if ft and ff:
                 d = True
-                self.work.append(self.decisions + [False])
+                self.work.append(self.decisions + [(False, False)])
             elif ft:
                 d = True
             elif ff:
@@ -284,8 +294,9 @@ class Ctx:
             else:
                 raise Infeasible()
         self.pos += 1
-        self.decisions.append(d)
-        self.pc.append(cond if d else smt.simp(z3.Not(cond)))
+        self.decisions.append((d, implied))
+        if not implied:
+            self.pc.append(cond if d else smt.simp(z3.Not(cond)))
         return d
 
     def choose(self, n, label=""):
@@ -836,10 +847,22 @@ class Ctx:
         if isinstance(val, Sym):
             if val.k == "str" and not spec or spec == "s":
                 return val
-            # the text of a symbolic number is an opaque symbolic string (display only)
-            self.assumed.add("format(number): uninterpreted function from numbers to strings")
+            reg = self.ghost.setdefault("fmt_terms", {})
+            if not spec and val.k == "int":
+                # str(i) of an integer: exact (SMT-LIB int.to.str on the absolute value, with the sign)
+                t = z3.If(val.t >= 0, z3.IntToStr(val.t), z3.Concat(z3.StringVal("-"), z3.IntToStr(-val.t)))
+                reg[t.get_id()] = val
+                return Sym(t, "str")
+            if not spec and val.k == "bool":
+                return Sym(z3.If(val.t, z3.StringVal("True"), z3.StringVal("False")), "str")
+            # the text of a symbolic float is an opaque symbolic string: non-empty and none of the keywords
+            self.assumed.add("format(float): uninterpreted function from numbers to non-empty strings other than none/true/false")
             f = smt.uf("fmt_" + val.k + "_" + (spec or "").replace(".", "_"), ops.elem_sort(val.k) if val.k != "real" else z3.RealSort(), ops.STR)
-            return Sym(f(val.t), "str")
+            t = f(val.t)
+            if t.get_id() not in reg:
+                self.axioms.append(z3.And(z3.Length(t) > 0, *[t != z3.StringVal(w) for w in ("none", "true", "false", "None", "True", "False")]))
+            reg[t.get_id()] = val
+            return Sym(t, "str")
         if isinstance(val, Ref):
             c = self.cell(val)
             if isinstance(c, HObj):
